@@ -38,3 +38,53 @@ package hclsyntax
 //@ loop 1 invariant advLine(end.Line, end.Column, org(b), len(b)) == advLine(start.Line, start.Column, org(old(f.Bytes)[startOfs:endOfs]), endOfs - startOfs)
 //@ loop 1 invariant advCol(end.Line, end.Column, org(b), len(b)) == advCol(start.Line, start.Column, org(old(f.Bytes)[startOfs:endOfs]), endOfs - startOfs)
 //@ loop 1 decreases len(b)
+
+// verif:unit U10 props=C04,C17
+
+// verif:func (*Attribute).AsHCLAttribute
+//@ nilrecv
+//@ assigns nothing
+//@ ensures a == nil ==> ret == nil
+//@ ensures a != nil ==> fresh(ret) && ret != nil && ret.Name == a.Name && ret.Expr == a.Expr && ret.Range == a.SrcRange && ret.NameRange == a.NameRange
+
+// verif:func (*Block).DefRange
+//@ pure
+
+// verif:func (*Block).AsHCLBlock
+//@ nilrecv
+//@ assigns nothing
+//@ ensures b == nil ==> ret == nil
+//@ ensures b != nil ==> fresh(ret) && ret != nil && ret.Type == b.Type && ret.Labels == b.Labels && ret.Body == iface(b.Body) && ret.TypeRange == b.TypeRange && ret.LabelRanges == b.LabelRanges
+
+// verif:func (*Body).MissingItemRange
+//@ pure
+//@ ensures ret.Filename == b.SrcRange.Filename && ret.Start == b.SrcRange.Start && ret.End == b.SrcRange.Start
+
+// wfNative(b): what the native parser guarantees about a body (used as precondition).
+// verif:pred wfNative(b *Body) = (forall j int :: { b.Blocks[j] } 0 <= j && j < len(b.Blocks) ==> b.Blocks[j] != nil && len(b.Blocks[j].LabelRanges) == len(b.Blocks[j].Labels)) && (forall k string :: { has(b.Attributes, k) } has(b.Attributes, k) ==> b.Attributes[k] != nil)
+
+// PartialContent: the receiver is not written; the remaining body is a fresh Body that
+// shares Attributes/Blocks/ranges with the receiver and owns fresh hidden sets which
+// contain everything the receiver hid plus what this schema consumed.
+// verif:func (*Body).PartialContent
+//@ requires schema != nil && wfNative(b)
+//@ assigns nothing
+//@ ensures kind: typeis(ret1, ptr(Body)) && unbox(ret1, ptr(Body)) != nil && fresh(unbox(ret1, ptr(Body)))
+//@ ensures view: unbox(ret1, ptr(Body)).Attributes == b.Attributes && unbox(ret1, ptr(Body)).Blocks == b.Blocks && unbox(ret1, ptr(Body)).SrcRange == b.SrcRange && unbox(ret1, ptr(Body)).EndRange == b.EndRange
+//@ ensures hiddenFresh: fresh(unbox(ret1, ptr(Body)).hiddenAttrs) && fresh(unbox(ret1, ptr(Body)).hiddenBlocks) && unbox(ret1, ptr(Body)).hiddenAttrs != unbox(ret1, ptr(Body)).hiddenBlocks
+//@ ensures hiddenAttrsGrow: forall k string :: has(b.hiddenAttrs, k) ==> has(unbox(ret1, ptr(Body)).hiddenAttrs, k)
+//@ ensures hiddenBlocksGrow: forall k string :: has(b.hiddenBlocks, k) ==> has(unbox(ret1, ptr(Body)).hiddenBlocks, k)
+//@ ensures schemaBlocksHidden: forall j int :: 0 <= j && j < len(schema.Blocks) ==> has(unbox(ret1, ptr(Body)).hiddenBlocks, schema.Blocks[j].Type)
+//@ ensures content: ret0 != nil && fresh(ret0)
+//@ ensures attrsVisible: forall k string :: has(ret0.Attributes, k) ==> has(b.Attributes, k) && !has(b.hiddenAttrs, k) && has(unbox(ret1, ptr(Body)).hiddenAttrs, k)
+//@ loop 1 invariant fresh(hiddenAttrs) && hiddenAttrs != nil && fresh(hiddenBlocks) && hiddenBlocks != nil && hiddenAttrs != hiddenBlocks && fresh(attrs) && attrs != nil
+//@ loop 1 invariant forall k string :: visited(k) ==> has(hiddenAttrs, k)
+//@ loop 2 invariant forall k string :: visited(k) ==> has(hiddenBlocks, k)
+//@ loop 3 invariant diags == nil || fresh(diags)
+//@ loop 3 invariant forall k string :: has(b.hiddenAttrs, k) ==> has(hiddenAttrs, k)
+//@ loop 3 invariant forall k string :: has(attrs, k) ==> has(b.Attributes, k) && !has(b.hiddenAttrs, k) && has(hiddenAttrs, k)
+//@ loop 5 invariant (diags == nil || fresh(diags)) && (blocks == nil || fresh(blocks))
+//@ loop 5 invariant forall k string :: has(b.hiddenAttrs, k) ==> has(hiddenAttrs, k)
+//@ loop 5 invariant forall k string :: has(attrs, k) ==> has(b.Attributes, k) && !has(b.hiddenAttrs, k) && has(hiddenAttrs, k)
+//@ loop 6 invariant forall k string :: has(b.hiddenBlocks, k) ==> has(hiddenBlocks, k)
+//@ loop 6 invariant forall j int :: 0 <= j && j <= rangeindex ==> has(hiddenBlocks, schema.Blocks[j].Type)
